@@ -135,8 +135,10 @@ GridChanging == RemapOps \cup DualOps \cup SubsetOps \cup FreeOps \cup CopyOps
 
 \* an operation: name, dimension argument, and (dataset-level operations touching the grid) the location MIX of the
 \* dataset it is applied to: which companion variables stand next to the array in the dataset
-Op(n, d)      == [op |-> n, d |-> d, m |-> {}]
-OpM(n, d, m)  == [op |-> n, d |-> d, m |-> m]
+\* ... and (generic selections) the KIND of indexer handed to the selection
+Op(n, d)      == [op |-> n, d |-> d, m |-> {}, ix |-> "-"]
+OpM(n, d, m)  == [op |-> n, d |-> d, m |-> m, ix |-> "-"]
+OpX(n, d, m, ix) == [op |-> n, d |-> d, m |-> m, ix |-> ix]
 NoOp == Op("start", "-")
 
 \* is the effect left free by the property (refusal or any consistent result)?
@@ -275,14 +277,38 @@ MixSelectOps == {"ds_isel_grid_kw", "ds_isel_grid_step", "ds_isel_grid_slice", "
 MixOtherOps  == {"ds_get_dual", "ds_remap_nn_face", "ds_copy_deep", "ds_mean_grid"}
 MixOps       == MixSelectOps \cup MixOtherOps
 \* (for a selection on a mixed dataset d is the grid dimension selected along; the array-level analogue has none)
-BO(o)  == Op(B(o.op), IF o.op \in MixOps THEN "-" ELSE o.d)
-AllOps == ArrOps \cup DsOps
+
+(* ---- GENERIC selections on the grid dimension: the indexer KIND ------------- *)
+(* One operation per calling form; the kind of indexer is a parameter TLC       *)
+(* enumerates.  What must be selected is what plain xarray's isel selects with  *)
+(* the same indexer on that dimension (exactly for faces; node / edge           *)
+(* selections are inclusive: at least those elements).                          *)
+GselOps == {"gsel_kw", "gsel_dict", "gsel_indexers", "gsel_getitem",   \* x.isel(**{g: I}), x.isel({g: I}), x.isel(indexers={g: I}), x[..., I]
+            "ds_gsel",                                                 \* ds.isel(**{g: I})["v"]
+            "grid_gsel"}                                               \* UxDataArray(plain selection, uxgrid = x.uxgrid.isel(**{g: I})): Grid.isel itself
+IxInt   == {"ilist", "ituple", "i32", "i64", "ixda", "iuxda", "irange", "repeated", "unsorted"}
+IxMask  == {"blist", "bnd", "bxda", "buxda"}                           \* buxda: a UxDataArray from a comparison on data
+IxSlice == {"s_bounded", "s_step", "s_rev", "s_neg", "s_negstop"}
+IxKinds == IxInt \cup IxMask \cup IxSlice \cup {"scalar", "s_none", "empty"}
+\* the operation of the table above whose effect the generic selection has
+GselBase(n, ix) == CASE ix = "scalar" -> "getitem_grid_scalar"          \* the grid dim disappears, same grid
+                     [] ix = "s_none" -> "compute"                      \* nothing selected away: same array, same grid
+                     [] ix = "empty"  -> "isel_grid_dict"               \* free: refusal, or a consistent (empty) result
+                     [] n \in {"gsel_kw", "grid_gsel"} -> "isel_grid_kw"   \* a NEW grid with exactly the elements the data has
+                     [] OTHER -> "isel_grid_dict"                       \* free: consistent result or refusal
+BN(o)  == IF o.op \in GselOps THEN GselBase(o.op, o.ix) ELSE B(o.op)
+BO(o)  == Op(BN(o), IF o.op \in MixOps \cup GselOps THEN "-" ELSE o.d)
+AllOps == ArrOps \cup DsOps \cup GselOps
 DsName(n, nm) == CASE n \in {"ds_assign", "ds_rename_var", "ds_setitem"} -> "w"
                    [] n = "ds_to_array" -> "none"
                    [] B(n) \in OwnOps -> nm
                    [] OTHER -> "v"
 Pre(o, a, G)  == /\ PreA(BO(o), a, G)
                  /\ o.op \notin MixOps => o.m = {}
+                 /\ (o.op \in GselOps) = (o.ix # "-")
+                 /\ o.op \in GselOps => /\ o.ix \in IxKinds /\ o.d = "-"
+                                        \* (Grid.isel is documented for "a list or 1-D array of indices": no slices, no scalar)
+                                        /\ o.op = "grid_gsel" => Centred(a) = "n_face" /\ o.ix \in IxInt \cup IxMask
                  /\ o.op \in MixOps => /\ o.m \in Mixes \cup {{}}
                                        /\ IF o.op \in MixSelectOps /\ o.m # {}
                                           THEN o.d \in {Centred(a)} \cup KindsOf(o.m) ELSE o.d = "-"
@@ -290,6 +316,9 @@ Pre(o, a, G)  == /\ PreA(BO(o), a, G)
 IsFree(o, a)  == IsFreeA(BO(o), a) \/ (o.op = "ds_remap_nn_face" /\ "c0" \in o.m)
 Eff(o, a, G)  == IF o.op \in DsOps
                  THEN LET r == EffA(BO(o), a, G) IN R([r.a EXCEPT !.name = DsName(o.op, @)], r.G)
+                 ELSE IF o.op \in GselOps
+                 THEN LET r == EffA(BO(o), a, G)
+                      IN R([r.a EXCEPT !.name = IF o.op = "ds_gsel" THEN "v" ELSE IF o.ix = "s_none" THEN a.name ELSE @], r.G)
                  ELSE EffA(o, a, G)
 
 \* what every companion must look like afterwards: kinds in order, <<kind, length>> with a grid dim's length given
@@ -321,7 +350,8 @@ MixCands(a) ==
   IF ~HasGridDim(a) THEN {}
   ELSE { OpM(n, k, m) : n \in MixSelectOps, m \in Mixes, k \in GridKinds }
        \cup { OpM(n, "-", m) : n \in MixOtherOps, m \in Mixes }
-Enabled(a, G) == { o \in Cands(a) \cup MixCands(a) : Pre(o, a, G) }
+GselCands(a) == IF ~HasGridDim(a) THEN {} ELSE { OpX(n, "-", {}, ix) : n \in GselOps, ix \in IxKinds }
+Enabled(a, G) == { o \in Cands(a) \cup MixCands(a) \cup GselCands(a) : Pre(o, a, G) }
 
 (* ---- the machine -------------------------------------------------------- *)
 Grid0 == << [kind |-> "base", of |-> 0, closed |-> TRUE], [kind |-> "dest", of |-> 0, closed |-> TRUE] >>
@@ -353,9 +383,10 @@ Copy         == \E o \in Cands(arr) : o.op \in CopyOps /\ Do(o)
 BrokenOp     == \E o \in Cands(arr) : o.op \in BrokenOps /\ Do(o)
 ThroughDataset == \E o \in Cands(arr) : o.op \in DsOps /\ Do(o)
 MixedDataset   == \E o \in MixCands(arr) : Do(o)
+GenericSelect  == \E o \in GselCands(arr) : Do(o)
 
 Next == \/ Elementwise \/ Permute \/ DropLead \/ ResizeLead \/ AddLead \/ DropGridDim
-        \/ ReplaceOnGrid \/ Remap \/ Dual \/ Subset \/ IndexGridDim \/ Copy \/ BrokenOp \/ ThroughDataset \/ MixedDataset
+        \/ ReplaceOnGrid \/ Remap \/ Dual \/ Subset \/ IndexGridDim \/ Copy \/ BrokenOp \/ ThroughDataset \/ MixedDataset \/ GenericSelect
 
 Spec == Init /\ [][Next]_vars
 
@@ -369,16 +400,16 @@ ArrOK(a, G) == /\ a.cls \in {"Ux", "Plain", "Other"} /\ a.grid \in 0..Len(G)
 GridOK(G) == \A h \in 1..Len(G) : /\ G[h].kind \in {"base", "dest", "subset", "dual", "copy"}
                                   /\ G[h].of \in 0..(h - 1) /\ G[h].closed \in BOOLEAN
 TypeOK == /\ ArrOK(arr, grids) /\ GridOK(grids) /\ last.op \in AllOps \cup {"start"} /\ depth \in 0..MaxDepth
-          /\ last.m \in Mixes \cup {{}}
+          /\ last.m \in Mixes \cup {{}} /\ last.ix \in IxKinds \cup {"-"}
 
 IsUx               == IsUxArr(arr)
 \* element i of the data along the grid dimension belongs to element i of the attached grid
 DataFollowsGrid    == arr.al
 GridDimsConsistent == ConsistentArr(arr)
 \* the attached grid is the source's unless the operation says otherwise
-SameGrid == [][ arr'.grid = arr.grid \/ B(last'.op) \in GridChanging ]_vars
+SameGrid == [][ arr'.grid = arr.grid \/ BN(last') \in GridChanging ]_vars
 \* a deep copy is attached to a NEW handle that is a copy of the source's grid
-DeepCopyFresh == [][ B(last'.op) \in CopyOps =>
+DeepCopyFresh == [][ BN(last') \in CopyOps =>
                        /\ arr'.grid = Len(grids) + 1 /\ arr'.grid # arr.grid
                        /\ grids'[arr'.grid].kind = "copy" /\ grids'[arr'.grid].of = arr.grid ]_vars
 \* on a mixed dataset EVERY variable ends up with the counts of the result's grid
@@ -392,8 +423,9 @@ GridsGrow == [][ Len(grids') >= Len(grids) /\ SubSeq(grids', 1, Len(grids)) = gr
 \* grouped by result: <<result, {<<op, d, free>>}>>; printed on one line (ToString) for the harness
 Succ(a, G) == LET E == Enabled(a, G)
                   Rs == { Eff(o, a, G) : o \in E }
-              IN { <<r, { <<o.op, o.d, o.m, IsFree(o, a)>> : o \in { x \in E : Eff(x, a, G) = r } }>> : r \in Rs }
+              IN { <<r, { <<o.op, o.d, o.m, o.ix, IsFree(o, a)>> : o \in { x \in E : Eff(x, a, G) = r } }>> : r \in Rs }
 Emit == /\ (EmitSucc /\ depth < MaxDepth) => PrintT(ToString(<<"X", depth, arr, grids, Succ(arr, grids)>>))
-        /\ (EmitSucc /\ depth = 0) => PrintT(ToString(<<"OPS", AllOps, [n \in AllOps |-> B(n)]>>))
+        /\ (EmitSucc /\ depth = 0) => PrintT(ToString(<<"OPS", AllOps, [n \in AllOps \ GselOps |-> B(n)],
+                                                                   { <<n, ix, GselBase(n, ix)>> : n \in GselOps, ix \in IxKinds }>>))
 GenView == <<arr, grids, depth>>
 =============================================================================
